@@ -124,6 +124,53 @@ def _as_expr(body: list[ast.stmt]) -> ast.expr | None:
     return None
 
 
+def _jumps(body: list[ast.stmt]) -> bool:
+    return any(isinstance(n, (ast.Break, ast.Continue, ast.Return, ast.Yield, ast.YieldFrom, ast.Await)) for st in body for n in ast.walk(st))
+
+
+def _single_yield(body: list[ast.stmt]) -> bool:
+    """A generator whose only suspension point is one `yield e` statement, with no return, try or with."""
+    ys = 0
+    for st in body:
+        for n in ast.walk(st):
+            if isinstance(n, (ast.FunctionDef, ast.AsyncFunctionDef, ast.Lambda, ast.YieldFrom, ast.Return, ast.Try, ast.With, ast.AsyncWith, ast.Await, ast.Break)):
+                return False
+            if isinstance(n, ast.Yield):
+                ys += 1
+    if ys != 1:
+        return False
+
+    def stmt_yield(block: list[ast.stmt]) -> bool:
+        for st in block:
+            if isinstance(st, ast.Expr) and isinstance(st.value, ast.Yield):
+                return True
+            for fld in ('body', 'orelse'):
+                sub = getattr(st, fld, None)
+                if isinstance(sub, list) and sub and isinstance(sub[0], ast.stmt) and stmt_yield(sub):
+                    return True
+        return False
+    return stmt_yield(body)
+
+
+def _splice_at_yield(block: list[ast.stmt], target: ast.expr, body: list[ast.stmt]) -> bool:
+    for k, st in enumerate(block):
+        if isinstance(st, ast.Expr) and isinstance(st.value, ast.Yield):
+            val = st.value.value if st.value.value is not None else ast.copy_location(ast.Constant(value=None), st)
+            tgt = copy.deepcopy(target)
+            asg = ast.copy_location(ast.Assign(targets=[tgt], value=val, lineno=st.lineno), st)
+            if ast.unparse(tgt) == ast.unparse(val):
+                block[k:k + 1] = list(body)        # the yielded locals already carry the target names
+                return True
+            block[k:k + 1] = [asg] + body
+            ast.fix_missing_locations(asg)
+            return True
+        for fld in ('body', 'orelse'):
+            sub = getattr(st, fld, None)
+            if isinstance(sub, list) and sub and isinstance(sub[0], ast.stmt) and _splice_at_yield(sub, target, body):
+                return True
+    return False
+
+
 def _has_return(st: ast.AST) -> bool:
     for n in ast.walk(st):
         if isinstance(n, (ast.FunctionDef, ast.AsyncFunctionDef, ast.Lambda)) and n is not st:
@@ -232,7 +279,7 @@ def expand(prog: 'object') -> list[str]:
                 return (h, h.kind == 'method', fnode.value)
         return None
 
-    def instantiate(caller, h, call, is_method, recv, counter, target=None):  # noqa: ANN001, ANN202
+    def instantiate(caller, h, call, is_method, recv, counter, target=None, force=None):  # noqa: ANN001, ANN202
         b = _bind(call, h.node, is_method, recv)
         if b is None:
             return None
@@ -292,6 +339,9 @@ def expand(prog: 'object') -> list[str]:
                 nm = p if p not in caller_names else f'{p}__{h.name}{counter}'
                 rename[p] = nm
                 pre.append(ast.copy_location(ast.Assign(targets=[ast.Name(id=nm, ctx=ast.Store())], value=copy.deepcopy(arg), lineno=call.lineno), call))
+        for y_, t_ in (force or {}).items():
+            if y_ in assigned and y_ not in b:
+                rename[y_] = t_
         for loc in assigned:
             if loc in alias:
                 continue
@@ -336,6 +386,39 @@ def expand(prog: 'object') -> list[str]:
                         elif isinstance(st, ast.AnnAssign) and isinstance(st.value, ast.Call):
                             call, target = st.value, st.target
                         done = False
+                        # --- G shape: `for t in helper(...): BODY` over a new generator with a single `yield e`:
+                        # the generator's code with BODY (after `t = e`) in place of the yield
+                        if isinstance(st, (ast.For,)) and isinstance(st.iter, ast.Call) and not st.orelse and not _jumps(st.body):
+                            r = resolve(caller, st.iter)
+                            if r and r[0] is not caller and _single_yield(_body(r[0].node)):
+                                h, is_m, recv = r
+                                counter += 1
+                                # the generator's locals that are yielded take the names of the loop targets when those are
+                                # dead outside the loop (otherwise they are copied at the yield point)
+                                force = {}
+                                yv = [n.value for x in _body(h.node) for n in ast.walk(x) if isinstance(n, ast.Yield)][0]
+                                ys = [yv] if isinstance(yv, ast.Name) else (list(yv.elts) if isinstance(yv, ast.Tuple) else [])
+                                ts = [st.target] if isinstance(st.target, ast.Name) else (list(st.target.elts) if isinstance(st.target, ast.Tuple) else [])
+                                if ys and len(ys) == len(ts) and all(isinstance(x, ast.Name) for x in ys + ts) and len({x.id for x in ys}) == len(ys):
+                                    inside = {id(x) for x in ast.walk(st)}
+                                    # occurrences bound by a comprehension of their own are a different variable
+                                    for comp in [c for c in ast.walk(caller.node) if isinstance(c, (ast.ListComp, ast.SetComp, ast.DictComp, ast.GeneratorExp))]:
+                                        bound = {x.id for g in comp.generators for x in ast.walk(g.target) if isinstance(x, ast.Name)}
+                                        inside |= {id(x) for x in ast.walk(comp) if isinstance(x, ast.Name) and x.id in bound}
+                                    helper_names = {x.id for y in _body(h.node) for x in ast.walk(y) if isinstance(x, ast.Name)} | {a.arg for a in h.node.args.args + h.node.args.kwonlyargs}
+                                    ok_t = all(not any(isinstance(x, ast.Name) and x.id == t.id and id(x) not in inside for x in ast.walk(caller.node)) for t in ts)
+                                    ok_h = all(t.id == y.id or t.id not in helper_names for y, t in zip(ys, ts))
+                                    if ok_t and ok_h:
+                                        force = {y.id: t.id for y, t in zip(ys, ts)}
+                                inst = instantiate(caller, h, st.iter, is_m, recv, counter, None, force)
+                                if inst is not None:
+                                    pre, nb = inst
+                                    if _splice_at_yield(nb, st.target, st.body):
+                                        blk[i:i + 1] = pre + nb
+                                        touched[caller.qualname] = caller
+                                        log.append(f'{caller.short}: loop over new generator {h.short} replaced by the generator\'s own loop')
+                                        changed = True
+                                        done = True
                         # --- R shape: `return helper(...)`: the helper's returns become the caller's returns
                         if isinstance(st, ast.Return) and isinstance(st.value, ast.Call):
                             r = resolve(caller, st.value)
